@@ -257,6 +257,92 @@ func listClass(links []pbLinkSpec) string {
 func TestC15(t *testing.T) {
 	r := mon.Start(t, "C15")
 	defer r.Close()
+	// link lists beyond 2^16 links (short names, one small target): positions do not fit 16 bits
+	for vi, view := range []string{"plain-directory", "generic-link-map"} {
+		vi, view := vi, view
+		r.Case("very-wide-list/"+view, map[string]any{"links": 70001, "view": view}, func(c *mon.Case) {
+			st := store.New()
+			target := st.PutBlock(1, cid.Raw, []byte("t"))
+			other := st.PutBlock(1, cid.Raw, []byte("u"))
+			const n = 70001
+			links := make([]pbLinkSpec, n)
+			for j := range links {
+				links[j] = pbLinkSpec{Name: strp(fmt.Sprintf("e%05d", j)), Cid: target}
+				if j%1000 == 999 || j >= 65530 {
+					links[j].Cid = other
+				}
+			}
+			dirT := pb.Data_Directory
+			var blk []byte
+			if vi == 0 {
+				blk = encodePB(mustMarshal(&pb.Data{Type: &dirT}), true, links)
+			} else {
+				blk = encodePB(nil, false, links)
+			}
+			pn, err := decodePB(blk)
+			if err != nil {
+				c.Harness("decode of hand-encoded block: %v", err)
+				return
+			}
+			node, err := reify(st.LinkSystem(false), pn)
+			if err != nil {
+				c.Violation("C15|reify", "%s over %d links: %v", view, n, err)
+				return
+			}
+			c.Count("lists", 1)
+			c.Count("lists_beyond_65536_links", 1)
+			if l := node.Length(); l != n {
+				c.Violation("C15|length-vs-pairs", "%s over %d links: Length() = %d", view, n, l)
+			}
+			yielded := 0
+			c.Guard("MapIterator", func() {
+				it := node.MapIterator()
+				for !it.Done() && yielded <= n {
+					if _, _, err := it.Next(); err != nil {
+						c.Violation("C15|iter-error", "%s over %d links: Next after %d pairs: %v", view, n, yielded, err)
+						return
+					}
+					yielded++
+				}
+			})
+			if yielded != n {
+				c.Violation("C15|length-vs-pairs", "%s over %d links: iteration yielded %d pairs", view, n, yielded)
+			}
+			for _, j := range []int{0, 1, 999, 32767, 32768, 65534, 65535, 65536, 65537, 65999, 66000, 69999, 70000} {
+				name := fmt.Sprintf("e%05d", j)
+				want := links[j].Cid
+				for ep := 0; ep < 4; ep++ {
+					var v ipld.Node
+					var err error
+					c.Guard("lookup", func() {
+						switch ep {
+						case 0:
+							v, err = node.LookupByString(name)
+						case 1:
+							v, err = node.LookupBySegment(datamodel.PathSegmentOfString(name))
+						case 2:
+							v, err = node.LookupByNode(basicnode.NewString(name))
+						default:
+							v, err = node.LookupByNode(pbString(name))
+						}
+					})
+					c.Count("lookups_cross_checked", 1)
+					if err != nil {
+						c.Violation(fmt.Sprintf("C15|yielded-key-not-found|entry%d", ep), "%s over %d links: key %q (position %d) was yielded but lookup entry point %d reports %v", view, n, name, j, ep, err)
+						break
+					}
+					if got, e := asCid(v); e != nil || !got.Equals(want) {
+						c.Violation("C15|lookup-link-not-yielded", "%s over %d links: key %q (position %d) resolves to %v, yielded with %v", view, n, name, j, got, want)
+						break
+					}
+				}
+			}
+			if _, err := node.LookupByString("e70001"); err == nil {
+				c.Violation("C15|unyielded-key-found", "%s over %d links: a key that was never yielded is found", view, n)
+			}
+			c.Sig("very-wide-list|"+view, true)
+		})
+	}
 	nb := r.Pick(160, 6000)
 	for b := 0; b < nb; b++ {
 		b := b
